@@ -413,6 +413,8 @@ class Executor:
             c = self.cls_of(v.z)
             return z3.And(v.z != 0, z3.Or([c == self.repo.class_ids[s] for s in subs]))
         if isinstance(v, VInt):
+            if getattr(v, 'char', False) or getattr(v, 'strid', False):
+                return z3.BoolVal(cls == 'str')
             return z3.BoolVal(cls == 'int')
         if isinstance(v, VBool):
             return z3.BoolVal(cls in ('bool', 'int'))
@@ -571,7 +573,7 @@ class Executor:
         """String constants compared against symbolic string ids (type strid): distinct literals get distinct ids."""
         tab = self.__dict__.setdefault('_intern', {})
         if text not in tab:
-            tab[text] = 1000 + len(tab)
+            tab[text] = (ord(text) if len(text) == 1 else 10000000 + len(tab))   # one-character strings are their code point
         return z3.IntVal(tab[text])
 
     def uf(self, name, *sorts):
